@@ -15,6 +15,7 @@ Extraction "model.ml"
   post_name post_string post_preview post_select_link post_media actor_name actor_string actor_preview actor_select_link actor_pfp actor_banner failure_name failure_string activity_name activity_string activity_preview activity_kind_ok
   remote_requests coll_page load_page resolve_webfinger jrd_accept wf_uri query_escape split_at wf_scan
   post_media_of post_attachments_of actor_pfp_of actor_banner_of select_best new_link
+  post_timestamp actor_timestamp activity_timestamp
   startup_error
   update run_task settle settle_gated snapshot ui_init resize view last_frame last_shown
   config_fields render_with_links gem_render_with_links plain_render_with_links split_nl
